@@ -213,7 +213,7 @@ func runStrip(_ *testing.T, c sdpCase) error {
 		return fmt.Errorf("stripping is not idempotent:\n once:  %q\n twice: %q", out, again)
 	}
 	var d sdp.SessionDescription
-	if err := d.Unmarshal([]byte(in)); err != nil {
+	if err := safeUnmarshal(&d, in); err != nil {
 		// not a session description: the statement only demands that nothing panics;
 		// additionally nothing may be invented
 		if out != in {
@@ -230,7 +230,7 @@ func runStrip(_ *testing.T, c sdpCase) error {
 		// arbitrary text that happens to parse: the line-level comparison below is only
 		// meaningful when pion's round trip of the text is stable
 		var d2 sdp.SessionDescription
-		if d2.Unmarshal(canonB) != nil {
+		if safeUnmarshal(&d2, string(canonB)) != nil {
 			return nil
 		}
 		if b2, err := d2.Marshal(); err != nil || string(b2) != canon {
@@ -270,6 +270,17 @@ func runStrip(_ *testing.T, c sdpCase) error {
 		return fmt.Errorf("output contains a line the input does not have: %q\n in:  %q\n out: %q", outL[j], canon, out)
 	}
 	return nil
+}
+
+// safeUnmarshal: the harness' own use of pion's parser must not crash the harness (pion/sdp
+// v3.0.5 panics on some malformed lines, D14); a panic counts as "not parseable".
+func safeUnmarshal(d *sdp.SessionDescription, text string) (err error) {
+	defer func() {
+		if r := recover(); r != nil {
+			err = fmt.Errorf("parser panicked: %v", r)
+		}
+	}()
+	return d.Unmarshal([]byte(text))
 }
 
 func at(l []string, i int) string {
@@ -371,7 +382,7 @@ func genCase(t *rapid.T) sdpCase {
 	if rapid.IntRange(0, 11).Draw(t, "arbitrary") == 0 {
 		s := rapid.OneOf(
 			rapid.StringN(0, 80, -1),
-			rapid.SampledFrom([]string{"", "v=0", "v=0\r\n", "garbage", "v=0\r\no=- 1 1 IN IP4 0.0.0.0\r\ns=-\r\nt=0 0\r\nm=application 9 UDP/DTLS/SCTP webrtc-datachannel\r\na=candidate:", "a=candidate:1 1 udp 1 10.0.0.1 1 typ host\r\n", "{\"type\":\"offer\",\"sdp\":\"v=0\"}", "v=0\r\nm=\r\n", "v=0\no=- 1 1 IN IP4 0.0.0.0\ns=-\nt=0 0\nm=audio 9 RTP/AVP 0\na=candidate:1 1 udp 1 192.168.0.9 9 typ host\n"}),
+			rapid.SampledFrom([]string{"", "v=0", "v=0\r\n", "garbage", "v= o=0 0 0 IN IP4\ns=\nt=\nr= ", "v=0\no=- 1 1 IN IP4 0.0.0.0\ns=-\nt=0 0\nr=7d 1h 0 25h\n", "v=0\no=- 1 1 IN IP4 0.0.0.0\ns=-\nt=\n", "v=0\no=- 1 1 IN IP4 0.0.0.0\ns=-\nt=0 0\nz=\n", "v=0\no=- 1 1 IN IP4 0.0.0.0\ns=-\nb=\nt=0 0\n", "v=0\no=\ns=-\nt=0 0\n", "v=0\no=- 1 1 IN IP4 0.0.0.0\ns=-\nt=0 0\nk=\nm=audio\n", "v=0\r\no=- 1 1 IN IP4 0.0.0.0\r\ns=-\r\nt=0 0\r\nm=application 9 UDP/DTLS/SCTP webrtc-datachannel\r\na=candidate:", "a=candidate:1 1 udp 1 10.0.0.1 1 typ host\r\n", "{\"type\":\"offer\",\"sdp\":\"v=0\"}", "v=0\r\nm=\r\n", "v=0\no=- 1 1 IN IP4 0.0.0.0\ns=-\nt=0 0\nm=audio 9 RTP/AVP 0\na=candidate:1 1 udp 1 192.168.0.9 9 typ host\n"}),
 		).Draw(t, "text")
 		if s == "" {
 			s = "\n"
